@@ -1193,7 +1193,6 @@ func (c *Ctx) OptFieldsNilWhenAbsent(pkgs ...string) []core.Ob {
 func (c *Ctx) PaletteSizeBound(pkg string) []core.Ob {
 	var obs []core.Ob
 	isVarIntLoad := func(v ssa.Value) bool {
-		v = stripConv(v)
 		ld, ok := v.(*ssa.UnOp)
 		if !ok || ld.Op != token.MUL {
 			return false
@@ -1209,9 +1208,105 @@ func (c *Ctx) PaletteSizeBound(pkg string) []core.Ob {
 		if !inPkgs(fn, pkg) {
 			continue
 		}
+		isWidthLeaf := func(v ssa.Value) bool {
+			switch x := v.(type) {
+			case *ssa.Parameter:
+				bt, ok := x.Type().Underlying().(*types.Basic)
+				return ok && bt.Info()&types.IsInteger != 0
+			case *ssa.UnOp:
+				if fa, ok := x.X.(*ssa.FieldAddr); ok && x.Op == token.MUL && len(fn.Params) > 0 && fa.X == ssa.Value(fn.Params[0]) {
+					bt, ok := x.Type().Underlying().(*types.Basic)
+					return ok && bt.Info()&types.IsInteger != 0
+				}
+			}
+			return false
+		}
+		// what an operand is made of: the decoded size, one width quantity, constants, arithmetic, bits.Len
+		type parts struct {
+			size, other bool
+			widths      map[string]bool
+		}
+		var collect func(v ssa.Value, p *parts, d int)
+		collect = func(v ssa.Value, p *parts, d int) {
+			if d > 8 {
+				p.other = true
+				return
+			}
+			switch {
+			case isVarIntLoad(v):
+				p.size = true
+				return
+			case isWidthLeaf(v):
+				p.widths[addrKeyOf(v)] = true
+				return
+			}
+			switch x := v.(type) {
+			case *ssa.Const:
+			case *ssa.Convert:
+				collect(x.X, p, d+1)
+			case *ssa.ChangeType:
+				collect(x.X, p, d+1)
+			case *ssa.BinOp:
+				collect(x.X, p, d+1)
+				collect(x.Y, p, d+1)
+			case *ssa.Call:
+				if strings.HasPrefix(calleeName(x.Common()), "math/bits.Len") && len(x.Call.Args) == 1 {
+					collect(x.Call.Args[0], p, d+1)
+				} else {
+					p.other = true
+				}
+			default:
+				p.other = true
+			}
+		}
+		var eval func(v ssa.Value, w int64) *big.Int
+		eval = func(v ssa.Value, w int64) *big.Int {
+			switch {
+			case isVarIntLoad(v):
+				return new(big.Int).Lsh(bi(1), uint(w))
+			case isWidthLeaf(v):
+				return bi(w)
+			}
+			switch x := v.(type) {
+			case *ssa.Const:
+				if n, ok := constInt(x); ok {
+					return n
+				}
+			case *ssa.Convert:
+				return eval(x.X, w)
+			case *ssa.ChangeType:
+				return eval(x.X, w)
+			case *ssa.Call:
+				if a := eval(x.Call.Args[0], w); a != nil && a.Sign() >= 0 {
+					return bi(int64(a.BitLen()))
+				}
+			case *ssa.BinOp:
+				l, r := eval(x.X, w), eval(x.Y, w)
+				if l == nil || r == nil {
+					return nil
+				}
+				switch x.Op {
+				case token.ADD:
+					return new(big.Int).Add(l, r)
+				case token.SUB:
+					return new(big.Int).Sub(l, r)
+				case token.MUL:
+					return new(big.Int).Mul(l, r)
+				case token.SHL:
+					if r.IsInt64() && r.Int64() >= 0 && r.Int64() < 64 {
+						return new(big.Int).Lsh(l, uint(r.Int64()))
+					}
+				case token.SHR:
+					if r.IsInt64() && r.Int64() >= 0 && r.Int64() < 64 {
+						return new(big.Int).Rsh(l, uint(r.Int64()))
+					}
+				}
+			}
+			return nil
+		}
 		k := 0
 		for _, b := range fn.Blocks {
-			if len(b.Instrs) == 0 {
+			if len(b.Instrs) == 0 || len(b.Succs) != 2 {
 				continue
 			}
 			iff, ok := b.Instrs[len(b.Instrs)-1].(*ssa.If)
@@ -1222,59 +1317,10 @@ func (c *Ctx) PaletteSizeBound(pkg string) []core.Ob {
 			if !ok {
 				continue
 			}
-			var expr ssa.Value
-			sizeLeft := false
-			switch {
-			case isVarIntLoad(cmp.X):
-				expr, sizeLeft = cmp.Y, true
-			case isVarIntLoad(cmp.Y):
-				expr = cmp.X
-			default:
-				continue
-			}
-			// the single non-constant integer leaf of the other side
-			var leaf ssa.Value
-			many := false
-			var leaves func(v ssa.Value, d int)
-			leaves = func(v ssa.Value, d int) {
-				if d > 8 {
-					many = true
-					return
-				}
-				switch x := v.(type) {
-				case *ssa.Const:
-				case *ssa.Convert:
-					leaves(x.X, d+1)
-				case *ssa.ChangeType:
-					leaves(x.X, d+1)
-				case *ssa.BinOp:
-					leaves(x.X, d+1)
-					leaves(x.Y, d+1)
-				case *ssa.Parameter:
-					if leaf != nil && leaf != v {
-						many = true
-					}
-					leaf = v
-				case *ssa.UnOp:
-					if fa, ok := x.X.(*ssa.FieldAddr); ok && x.Op == token.MUL && len(fn.Params) > 0 && fa.X == ssa.Value(fn.Params[0]) {
-						if leaf != nil {
-							if l2, ok := leaf.(*ssa.UnOp); !ok || func() bool { f2, ok := l2.X.(*ssa.FieldAddr); return !ok || f2.Field != fa.Field }() {
-								many = true
-							}
-						}
-						leaf = v
-						return
-					}
-					many = true
-				default:
-					many = true
-				}
-			}
-			leaves(expr, 0)
-			if leaf == nil || many {
-				continue
-			}
-			if bt, ok := leaf.Type().Underlying().(*types.Basic); !ok || bt.Info()&types.IsInteger == 0 {
+			px, py := &parts{widths: map[string]bool{}}, &parts{widths: map[string]bool{}}
+			collect(cmp.X, px, 0)
+			collect(cmp.Y, py, 0)
+			if px.other || py.other || !(px.size || py.size) || len(px.widths)+len(py.widths) != 1 {
 				continue
 			}
 			// which edge fails
@@ -1290,55 +1336,11 @@ func (c *Ctx) PaletteSizeBound(pkg string) []core.Ob {
 			k++
 			o := core.Ob{Rule: "R-ACCEPT", Key: fmt.Sprintf("palette-size:%s#%d", core.FnName(fn), k), Pos: c.P.Pos(cmp.Pos()), Func: core.FnName(fn), Armed: true, Status: core.OK,
 				Want: "a palette of exactly 1<<w entries passes a size bound computed from the index width w"}
-			var eval func(v ssa.Value, w int64) *big.Int
-			eval = func(v ssa.Value, w int64) *big.Int {
-				switch x := v.(type) {
-				case *ssa.Const:
-					if n, ok := constInt(x); ok {
-						return n
-					}
-				case *ssa.Convert:
-					return eval(x.X, w)
-				case *ssa.ChangeType:
-					return eval(x.X, w)
-				case *ssa.Parameter:
-					return bi(w)
-				case *ssa.UnOp:
-					return bi(w)
-				case *ssa.BinOp:
-					l, r := eval(x.X, w), eval(x.Y, w)
-					if l == nil || r == nil {
-						return nil
-					}
-					switch x.Op {
-					case token.ADD:
-						return new(big.Int).Add(l, r)
-					case token.SUB:
-						return new(big.Int).Sub(l, r)
-					case token.MUL:
-						return new(big.Int).Mul(l, r)
-					case token.SHL:
-						if r.IsInt64() && r.Int64() >= 0 && r.Int64() < 64 {
-							return new(big.Int).Lsh(l, uint(r.Int64()))
-						}
-					case token.SHR:
-						if r.IsInt64() && r.Int64() >= 0 && r.Int64() < 64 {
-							return new(big.Int).Rsh(l, uint(r.Int64()))
-						}
-					}
-				}
-				return nil
-			}
 			for w := int64(1); w <= 8; w++ {
-				bound := eval(expr, w)
-				if bound == nil {
+				l, r := eval(cmp.X, w), eval(cmp.Y, w)
+				if l == nil || r == nil {
 					o.Got = "the bound is not an arithmetic expression of the width (not judged)"
 					break
-				}
-				size := new(big.Int).Lsh(bi(1), uint(w))
-				l, r := size, bound
-				if !sizeLeft {
-					l, r = bound, size
 				}
 				var holds bool
 				switch cmp.Op {
@@ -1362,8 +1364,9 @@ func (c *Ctx) PaletteSizeBound(pkg string) []core.Ob {
 					taken = 0
 				}
 				if taken == failEdge {
+					size := new(big.Int).Lsh(bi(1), uint(w))
 					o.Status = core.Violated
-					o.Got = fmt.Sprintf("for a width of %d bits the bound evaluates to %s: a full palette of %s entries (what the writer emits for %d distinct values) is refused", w, bound, size, size)
+					o.Got = fmt.Sprintf("for a width of %d bits and %s entries the test compares %s with %s and fails: a full palette (what the writer emits for %s distinct values) is refused", w, size, l, r, size)
 					break
 				}
 			}
@@ -1371,6 +1374,19 @@ func (c *Ctx) PaletteSizeBound(pkg string) []core.Ob {
 		}
 	}
 	return obs
+}
+
+// addrKeyOf: a name for a width quantity (the parameter, or the receiver field it is loaded from).
+func addrKeyOf(v ssa.Value) string {
+	switch x := v.(type) {
+	case *ssa.Parameter:
+		return "param:" + x.Name()
+	case *ssa.UnOp:
+		if fa, ok := x.X.(*ssa.FieldAddr); ok {
+			return fmt.Sprintf("field:%d", fa.Field)
+		}
+	}
+	return v.Name()
 }
 
 // ---------------------------------------------------------------------------
@@ -2511,4 +2527,71 @@ func (c *Ctx) TextEntryEOF(fnName string) []core.Ob {
 		o.Got = "a return that can report success is reached after the conversion without the end of the input having been checked: text after the value (or a value cut short) goes unnoticed"
 	}
 	return []core.Ob{o}
+}
+
+// ---------------------------------------------------------------------------
+// R-MARSHALER[every-value-through-the-wrapper]: the encoder has one function
+// that looks whether a value implements Marshaler before it falls back to the
+// kind switch. The kind switch is entered only through it: a recursive call
+// that goes to the kind switch directly (for the elements of a list, say) skips
+// the custom encoders, and a carrier type such as RawMessage - whose TagType()
+// names the tag of what it carries - is then taken apart as if it were that tag
+// (`[]RawMessage` panics in reflect.Value.Len).
+
+func (c *Ctx) MarshalerWrapper(pkg string) []core.Ob {
+	var obs []core.Ob
+	// the wrapper: a function of the package that asserts its reflect.Value's Interface() to the
+	// Marshaler interface and calls another function of the package with its own two parameters
+	var wrapper, kindSwitch *ssa.Function
+	for _, fn := range c.Funcs() {
+		if !inPkgs(fn, pkg) || len(fn.Params) < 2 {
+			continue
+		}
+		asserts := false
+		for _, b := range fn.Blocks {
+			for _, in := range b.Instrs {
+				if ta, ok := in.(*ssa.TypeAssert); ok {
+					if n, ok := types.Unalias(ta.AssertedType).(*types.Named); ok && n.Obj().Name() == "Marshaler" && n.Obj().Pkg() != nil && core.Rel(n.Obj().Pkg().Path()) == pkg {
+						asserts = true
+					}
+				}
+			}
+		}
+		if !asserts {
+			continue
+		}
+		for _, ci := range callsIn(fn, func(_ string, cc *ssa.CallCommon) bool {
+			g := cc.StaticCallee()
+			return g != nil && core.FnPkg(g) == core.FnPkg(fn) && core.Origin(g) != fn
+		}) {
+			args := ci.Common().Args
+			if len(args) >= 2 && args[len(args)-1] == ssa.Value(fn.Params[len(fn.Params)-1]) && args[len(args)-2] == ssa.Value(fn.Params[len(fn.Params)-2]) {
+				if types.TypeString(args[len(args)-2].Type(), nil) == "reflect.Value" {
+					wrapper, kindSwitch = fn, core.Origin(ci.Common().StaticCallee())
+				}
+			}
+		}
+	}
+	if wrapper == nil {
+		return []core.Ob{{Rule: "R-MARSHALER", Key: "every-value-through-the-wrapper:anchor", Armed: true, Status: core.Violated,
+			Want: "the encoder's Marshaler-aware wrapper around its kind switch is found", Got: "not found"}}
+	}
+	k := 0
+	for _, fn := range c.Funcs() {
+		if !inPkgs(fn, pkg) || fn == wrapper {
+			continue
+		}
+		for _, ci := range callsIn(fn, func(_ string, cc *ssa.CallCommon) bool {
+			g := cc.StaticCallee()
+			return g != nil && core.Origin(g) == kindSwitch
+		}) {
+			k++
+			obs = append(obs, core.Ob{Rule: "R-MARSHALER", Key: fmt.Sprintf("every-value-through-the-wrapper:%s#%d", core.FnName(fn), k), Pos: c.P.Pos(ci.Pos()), Func: core.FnName(fn), Armed: true, Status: core.Violated,
+				Want: "the kind switch " + kindSwitch.Name() + " is entered only through " + wrapper.Name() + ", which gives a Marshaler the word first",
+				Got:  "a value is handed to the kind switch directly: an element that implements Marshaler (RawMessage, StringifiedMessage, dynbt.Value in a list) is encoded by its tag's generic code instead of its own MarshalNBT"})
+		}
+	}
+	obs = append(obs, core.Ob{Rule: "R-MARSHALER", Key: "every-value-through-the-wrapper:" + core.FnName(wrapper), Pos: c.P.Pos(wrapper.Pos()), Func: core.FnName(wrapper), Armed: true, Status: core.OK,
+		Want: "the kind switch " + kindSwitch.Name() + " is entered only through " + wrapper.Name(), Got: fmt.Sprintf("%d direct entries", k)})
+	return obs
 }
